@@ -130,6 +130,12 @@ impl SenderMon {
         if seg.is(itcp::ACK) {
             let shift = if seg.is(itcp::SYN) { 0 } else { self.peer_shift() };
             if let Some(a) = self.off(seg.ack) {
+                // An ACK for something the application has not even written yet is not
+                // acceptable for any TCP (RFC 9293 3.10.7.4: SEG.ACK > SND.NXT => drop);
+                // no window can be learned from it.
+                if a > self.written as i64 + 2 {
+                    return;
+                }
                 let e = a + ((seg.wnd as i64) << shift);
                 if let Some(prev) = self.stats.last_edge_seen {
                     if e < prev {
@@ -144,7 +150,8 @@ impl SenderMon {
 
     fn limit_mss(&self) -> usize {
         match self.peer_mss {
-            None => 536,
+            // an announced MSS of zero is meaningless and treated like an absent option
+            None | Some(0) => 536,
             Some(m) => (m as usize).max(48),
         }
     }
@@ -325,7 +332,12 @@ impl SenderMon {
             match self.close_at {
                 None => v.push(("fin:without-close".into(), format!("FIN at stream offset {} although the application never closed", e))),
                 Some(c) => {
-                    if e as u64 != c {
+                    if e == -1 && c == 0 {
+                        v.push((
+                            "fin:at-the-sequence-number-of-the-unacknowledged-syn".into(),
+                            "FIN sent with the sequence number of the socket's own SYN (close() before the handshake completed, then a retransmission)".into(),
+                        ));
+                    } else if e as u64 != c {
                         v.push((
                             "fin:not-at-end-of-stream".into(),
                             format!("FIN at stream offset {} but the application wrote {} bytes before close()", e, c),
